@@ -147,7 +147,11 @@ func getC09Fixture() *c09fix {
 	m2 := mkBlock("M2", m1, 2, t1)
 	m3 := mkBlock("M3", m2, 3, t2)
 	m4 := mkBlock("M4", m3, 4, t3, t4)
-	m5 := mkBlock("M5", m4, 5)
+	// received and spent in one block: t5 pays X, t6 (later in the same
+	// block, relevant for no other reason) spends that output
+	t5 := tx(14, []wire.OutPoint{rnd(3)}, f.scriptX)
+	t6 := tx(15, []wire.OutPoint{{Hash: t5.TxHash(), Index: 0}}, other(44))
+	m5 := mkBlock("M5", m4, 5, t5, t6)
 	m6 := mkBlock("M6", m5, 6) // reserved for the wind-down
 	f.main = []*c09block{g, m1, m2, m3, m4, m5, m6}
 	// fork from M1
